@@ -46,22 +46,25 @@ def is_field_of_param(t, field, param=1):
     return b[0] == "param" and b[1] == param
 
 
-def discr_switches(fn, terms, place_pred):
-    """(bb, switch terminator) for every live switch on discriminant(P) with place_pred(term(P))"""
+def discr_switches(fn, terms, place_pred, ty_prefix=None):
+    """(bb, switch terminator) for every live switch on discriminant(P) with place_pred(term(P))
+    (and the type of P starting with ty_prefix, if given)"""
     out = []
     for bb in sorted(fn.live_blocks()):
         r = M.switch_operand_def(fn, bb)
         if r is None or r["k"] != "discr":
+            continue
+        if ty_prefix is not None and not r["p"]["ty"].startswith(ty_prefix):
             continue
         if place_pred(terms.place(r["p"])):
             out.append((bb, fn.blocks[bb]["term"]))
     return out
 
 
-def variant_edges(fn, terms, place_pred, value, all_values):
+def variant_edges(fn, terms, place_pred, value, all_values, ty_prefix=None):
     """CFG edges taken exactly when discriminant(P) == value (target not shared with another value)"""
     out = []
-    for bb, t in discr_switches(fn, terms, place_pred):
+    for bb, t in discr_switches(fn, terms, place_pred, ty_prefix):
         tgt = M.switch_target(t, value)
         others = {M.switch_target(t, v) for v in all_values if v != value}
         if tgt not in others:
@@ -190,3 +193,140 @@ def public_api(prog):
         if f.j.get("vis") == "pub":
             out.append(f)
     return out
+
+
+# ----------------------------------------------------------------------------
+# the fork site and the child region
+# ----------------------------------------------------------------------------
+
+
+class ForkModel:
+    """locates the single fork() site and splits os_start into the child and parent regions"""
+
+    def __init__(self, prog):
+        self.prog = prog
+        self.libc_fork = extern_calls(prog, ["fork", "vfork", "clone", "clone3", "posix_spawn", "posix_spawnp", "_Fork", "rfork"])
+        self.wrapper_calls = M.all_calls(prog, lambda f: M.callee_str(f) == "posix::fork")
+        self.ok = len(self.wrapper_calls) == 1
+        if not self.ok:
+            return
+        self.fn, self.fork_bb, _ = self.wrapper_calls[0]
+        fn = self.fn
+        self.T = M.Terms(fn)
+        is_fork_opt = lambda t: M.strip(t)[0] == "call" and M.strip(t)[1] == "posix::fork"
+        self.child_edges = variant_edges(fn, self.T, is_fork_opt, 0, [0, 1], "std::option::Option<")
+        self.parent_edges = variant_edges(fn, self.T, is_fork_opt, 1, [0, 1], "std::option::Option<")
+        if len(self.child_edges) != 1 or len(self.parent_edges) != 1:
+            self.ok = False
+            return
+        self.child_entry = self.child_edges[0][1]
+        self.parent_entry = self.parent_edges[0][1]
+        self.child_region = fn.reachable(self.child_entry)
+        self.parent_region = fn.reachable(self.parent_entry)
+        self.pre_region = fn.reachable(0, stop_blocks=[self.fork_bb])
+
+    def child_roots(self):
+        """crate-local bodies entered from the child region (callees, closures whose values flow
+        into the calls' arguments)"""
+        return region_roots(self.prog, self.fn, self.child_region)
+
+    def child_closure(self):
+        return M.local_closure(self.prog, self.child_roots())
+
+
+def _may_hold_code(ty):
+    return any(m in ty for m in ("Closure(", "{closure", "dyn ", "fn(", "impl ", "Opaque", "FnDef("))
+
+
+def closures_in_value(prog, t, out, seen, fn=None):
+    """closures / fn items that can be *part of* the value denoted by term t: through aggregates
+    (incl. closure captures), phis, projections, results of non-local calls given them as
+    arguments (iterator adaptors, Option::map ...) and results of crate-local calls (by their
+    own return value, not by their arguments)"""
+    if isinstance(t, frozenset):
+        for y in t:
+            closures_in_value(prog, y, out, seen, fn)
+        return
+    if not isinstance(t, tuple) or not t or not isinstance(t[0], str):
+        return
+    k = t[0]
+    if k == "agg":
+        if isinstance(t[1], tuple) and t[1][0] == "closure":
+            out.add(t[1][1])
+        for o in t[2]:
+            closures_in_value(prog, o, out, seen, fn)
+    elif k == "fnitem":
+        if t[1] in prog.fns:
+            out.add(t[1])
+    elif k == "call":
+        if t[1] in prog.fns:
+            out.update(returned_closures(prog, t[1], seen))
+        else:
+            # a non-local call can only hand back code it was given, and only if its result type can hold code
+            hold = True
+            if fn is not None and len(t) > 3 and isinstance(t[3], int):
+                tt = fn.blocks[t[3]]["term"]
+                if tt["k"] == "call":
+                    hold = _may_hold_code(tt["dest"]["ty"])
+            if hold:
+                for o in t[2]:
+                    closures_in_value(prog, o, out, seen, fn)
+    elif k == "phi":
+        closures_in_value(prog, t[1], out, seen, fn)
+    elif k in ("field", "deref", "ref", "downcast", "index", "cidx", "subslice", "cast", "un", "proj"):
+        for y in t[1:]:
+            if isinstance(y, tuple):
+                closures_in_value(prog, y, out, seen, fn)
+
+
+def returned_closures(prog, path, seen=None):
+    """closures (and fn items) that can be part of the value returned by crate fn `path`"""
+    seen = seen if seen is not None else set()
+    if path in seen or path not in prog.fns:
+        return set()
+    seen.add(path)
+    fn = prog.fns[path]
+    T = M.Terms(fn)
+    out = set()
+    closures_in_value(prog, T.local(0), out, seen, fn)
+    return out
+
+
+def region_roots(prog, fn, blocks):
+    roots = set()
+    T = M.Terms(fn)
+    for bb in sorted(blocks):
+        b = fn.blocks[bb]
+        if b["cleanup"]:
+            continue
+        t = b["term"]
+        if t["k"] not in ("call", "tailcall"):
+            continue
+        f = t["f"]
+        if "indirect" not in f:
+            for k in ("rpath", "path"):
+                if f.get(k) in prog.fns:
+                    roots.add(f[k])
+        for a in t["args"]:
+            closures_in_value(prog, T.operand(a), roots, set(), fn)
+    return roots
+
+
+def try_ok_edges(fn, terms, call_pred):
+    """Continue edges of `?` applied to the result of a call matching call_pred:
+    switch on discriminant(_x) where _x = Try::branch(<call>)"""
+    def is_branch_of(t):
+        return (t[0] == "call" and t[1].endswith("as std::ops::Try>::branch") and t[2]
+                and t[2][0][0] == "call" and call_pred(t[2][0]))
+    return variant_edges(fn, terms, is_branch_of, 0, [0, 1], "std::ops::ControlFlow<")
+
+
+def try_err_edges(fn, terms, call_pred):
+    def is_branch_of(t):
+        return (t[0] == "call" and t[1].endswith("as std::ops::Try>::branch") and t[2]
+                and t[2][0][0] == "call" and call_pred(t[2][0]))
+    return variant_edges(fn, terms, is_branch_of, 1, [0, 1], "std::ops::ControlFlow<")
+
+
+def callers_of(prog, path):
+    return M.all_calls(prog, lambda f: M.callee_str(f) == path)
